@@ -92,8 +92,9 @@ def d1(ctx, prog):
     except bitprov.Abort as e:
         ctx.undecided('C10-D1', key, f'provenance analysis aborted: {e}', f.where())
     allocs = [s for s in ast.walk(f.node) if isinstance(s, ast.Assign) and norm(s.targets[0]) == 'output_key']
-    ok = len(allocs) == 1 and isinstance(allocs[0].value, ast.Call) and isinstance(allocs[0].value.args[0], ast.Tuple) and \
-        astutil.affine(allocs[0].value.args[0].elts[1]) == {'interrupt_after_round': 8, '': 8}
+    ldefs_ = astutil.local_defs(f.node)
+    ok = len(allocs) == 1 and isinstance(allocs[0].value, ast.Call) and allocs[0].value.args and isinstance(allocs[0].value.args[0], ast.Tuple) and \
+        astutil.affine(astutil.expand_locals(allocs[0].value.args[0].elts[1], ldefs_)) == {'interrupt_after_round': 8, '': 8}
     ctx.check(ok, 'C10-D1', f'{f.key}::width', 'the output does not have 8 * (interrupt_after_round + 1) words', 'output width 8 * (interrupt_after_round + 1)', f.where())
 
 
@@ -371,7 +372,17 @@ class Terms:
                     raise AnalysisError('S-box of a xor')
                 return frozenset([('S', next(iter(inner)))])
             if base == 'RCON':
-                return frozenset([('RCON', norm(e.slice).replace(' ', ''))])
+                # the index in one canonical spelling: a // b and int(a / b) agree for the non-negative column numbers used here
+                class _Div(ast.NodeTransformer):
+                    def visit_BinOp(self, n):
+                        self.generic_visit(n)
+                        if isinstance(n.op, ast.FloorDiv):
+                            return ast.copy_location(ast.Call(func=ast.Name(id='int', ctx=ast.Load()), args=[ast.BinOp(left=n.left, op=ast.Div(), right=n.right)], keywords=[]), n)
+                        return n
+                import copy as _copy
+                idx_ = _Div().visit(_copy.deepcopy(e.slice))
+                ast.fix_missing_locations(idx_)
+                return frozenset([('RCON', norm(idx_).replace(' ', ''))])
         if isinstance(e, ast.BinOp) and isinstance(e.op, ast.BitXor):
             return self.ev(e.left) ^ self.ev(e.right)
         if isinstance(e, ast.Call):
